@@ -696,7 +696,7 @@ fn map_entries(inner: impl Strategy<Value = Node> + Clone, non_string_keys: bool
 /// Make text keys of one map pairwise distinct (constructively; no rejection) and drop repeated
 /// non-text keys — a map with two equal keys is outside the quantifier (the property's duplicate
 /// keys are duplicate *event properties*).
-fn fix_keys(mut entries: Vec<(Node, Node)>) -> Vec<(Node, Node)> {
+pub fn fix_keys(mut entries: Vec<(Node, Node)>) -> Vec<(Node, Node)> {
     let mut seen: Vec<String> = Vec::new();
     let mut out = Vec::new();
     for (i, (k, v)) in entries.drain(..).enumerate() {
